@@ -296,6 +296,24 @@ func (w *c14World) kinds(E []string) []c14Kind {
 	add(c14Kind{"set symbol runtime cursor (missing entity)", false, "", func([]string) []string { return nil }, func(tx *bbolt.Tx) ast.SetCursor {
 		return w.hub.GetSymbol("vals").(boltz.RuntimeEntitySetSymbol).OpenCursor(tx, []byte("nosuch"))
 	}})
+	// one runtime symbol re-used across rows, as a scan does: the cursor of the previous row must not leak
+	add(c14Kind{"set symbol runtime cursor re-opened (row H, then a row without the set)", false, "seekToString", func([]string) []string { return nil }, func(tx *bbolt.Tx) ast.SetCursor {
+		s := w.hub.GetSymbol("vals").(boltz.RuntimeEntitySetSymbol)
+		s.OpenCursor(tx, []byte("H"))
+		return s.OpenCursor(tx, []byte("nosuch"))
+	}})
+	add(c14Kind{"set symbol runtime cursor re-opened (row without the set, then row H)", false, "seekToString", all, func(tx *bbolt.Tx) ast.SetCursor {
+		s := w.hub.GetSymbol("vals").(boltz.RuntimeEntitySetSymbol)
+		s.OpenCursor(tx, []byte("nosuch"))
+		return s.OpenCursor(tx, []byte("H"))
+	}})
+	add(c14Kind{"set symbol runtime cursor re-opened (row H advanced by one, then row H again)", false, "seekToString", all, func(tx *bbolt.Tx) ast.SetCursor {
+		s := w.hub.GetSymbol("vals").(boltz.RuntimeEntitySetSymbol)
+		if c := s.OpenCursor(tx, []byte("H")); c.IsValid() {
+			c.Next()
+		}
+		return s.OpenCursor(tx, []byte("H"))
+	}})
 	if len(Ep) > 0 {
 		first := Ep[0]
 		add(c14Kind{"composite (stacked) cursor items.owner.vals", false, "", all, func(tx *bbolt.Tx) ast.SetCursor {
